@@ -264,6 +264,45 @@ def trace_core(ctx, prop, runs, reject=0, large_every=None, fan_every=5):
         ctx.violations.append(dict(property=prop, what=f"trace validation: event {ev.get('e')} of run {run['run']} rejected by the specification", replay=rp))
 
 
+def trace_linkage(ctx, runs, max_n=12, only=None):
+    """impl -> spec for C17: random Linkage runs recorded from the crate, validated against the merge machine (TraceLinkage),
+    one single-worker TLC per (number of inputs, mode)"""
+    from concurrent.futures import ThreadPoolExecutor
+    tf = os.path.join(ctx.scratch, "linkage-trace")
+    s = hv(ctx, "record-linkage", trace=tf, runs=runs, max_n=max_n)
+    groups = s["extra"]["groups"]
+    idx = s["extra"]["runs"]
+    if only:
+        groups = [g for g in groups if (g["n"], g["mode"]) == only]
+
+    def one(g):
+        cfg = cfgfile(ctx, f"TraceLinkage_{g['n']}_{g['mode']}", "trace/TraceLinkage.tla",
+                      f'SPECIFICATION TSpec\nCONSTANTS\n  N = {g["n"]}\n  Mode = "{g["mode"]}"\nPOSTCONDITION Accepted\nCHECK_DEADLOCK FALSE\n')
+        return tlc_trace(ctx, cfg, "trace/TraceLinkage.tla", g["file"], timeout=1200)
+    with ThreadPoolExecutor(max_workers=12) as ex:
+        results = list(ex.map(one, groups))
+    rejected = []
+    for g, (ok, line_no) in zip(groups, results):
+        mine = [r for r in idx if r["n"] == g["n"] and r["mode"] == g["mode"]]
+        if ok:
+            ctx.traces += len(mine)
+            ctx.extra["trace_events_validated"] = ctx.extra.get("trace_events_validated", 0) + g["events"]
+            continue
+        run = next((r for r in mine if r["first_line"] <= (line_no or 0) <= r["last_line"]), mine[-1])
+        ctx.traces += sum(1 for r in mine if r["last_line"] < (line_no or 0))
+        lines = open(g["file"]).read().splitlines()
+        ev = json.loads(lines[line_no - 1]) if line_no and line_no <= len(lines) else {}
+        start = json.loads(lines[run["first_line"] - 1])
+        os.makedirs(REPLAYS, exist_ok=True)
+        rp = os.path.join(REPLAYS, f"C17-linkage-seed{ctx.seed}-run{run['run']}.json")
+        json.dump({"cmd": "trace-linkage", "property": "C17", "seed": ctx.seed, "runs": runs, "max_n": max_n, "run": run["run"], "n": g["n"], "mode": g["mode"], "line": line_no, "start": start, "event": ev,
+                   "diffs": [f"recorded event {ev.get('e')} (line {line_no} of the {g['n']}/{g['mode']} trace, run {run['run']}) is not a step of the merge machine (TraceLinkage)"]}, open(rp, "w"), indent=1)
+        what = f"trace validation: Linkage::{g['mode']} on {g['n']} sets (run {run['run']}): event {json.dumps(ev)[:300]} is not a step of the specification's merge machine; inputs {json.dumps(start)[:400]}"
+        ctx.violations.append(dict(property="C17", what=what, replay=rp))
+        rejected.append(g)
+    return rejected
+
+
 def algo_drift(ctx, runs):
     """advisory: step events from the hooks must be steps of HpoAlgo's machines; mismatch = algorithm drift, never a violation"""
     tf = os.path.join(ctx.scratch, "algo.ndjson")
@@ -745,12 +784,18 @@ def check_C17(ctx):
                 "user distance |W(A)-W(B)| applied to the united sets; invariants ClosestFirst, SizesAddUp, TreeShape, MachineInSet; ties make the machine nondeterministic and TLC emits "
                 "the set of ALL allowed dendrograms with their leaf order.  The harness runs Linkage::{single,complete,average,union} on singleton HpoSets with a recording callback and "
                 "requires: the returned merges are one of the allowed sequences (distance exact, size exact), into_cluster() = cluster(), binary-tree shape, indicies() is a permutation and the "
-                "mention order, the first callback call offers every unordered pair once, arithmetic modes call it once, union calls it once per merge with the union against every live set; "
-                "non-trivial = every case (N >= 4)")
-    modes = ("single", "average", "union") if ctx.quick else ("single", "complete", "average", "union", "average5")
+                "mention order, the first callback call offers every unordered pair once, union calls it once per merge with the union against every live set.  Union mode is also explored with "
+                "OVERLAPPING inputs (every assignment of non-empty subsets of three weighted items), the arithmetic modes with infinite distances (N = 2, 3) and at N = 5.  impl->spec: random runs recorded "
+                "from the crate (2..12 inputs, tie-free / tied / infinite entries, overlapping sets) are validated step by step against the same machine (spec/trace/TraceLinkage.tla: every recorded merge must be "
+                "a Merge step - a closest pair at the reported distance and size -, leaf order, callback pairs); non-trivial = every case")
+    modes = ["single", "average", "union", "overlap3", "single_inf2", "complete_inf2", "average_inf2", "single_inf3", "complete_inf3", "average_inf3", "complete5"]
+    if not ctx.quick:
+        modes += ["complete", "average5", "overlap4", "single5"]
     outs = [tlc(ctx, f"mc/MC_Linkage_{m}.cfg", "mc/MC_Linkage.tla", workers=8, timeout=1800)["out"] for m in modes]
     s = hv(ctx, "replay-linkage", prop="C17", **{"in": concat(ctx, outs, "c17-lines.txt")})
     ctx.traces += s.get("cases", 0)
+    # impl -> spec: larger random runs (2..12 inputs, mostly tie-free matrices, overlapping sets in union mode) against the same machine
+    trace_linkage(ctx, 400 if ctx.quick else 6000)
     ctx.assumptions += ["distances are small dyadic rationals, exact in f32; ties are allowed and the crate's choice must be one of the spec's"]
     return finish(ctx)
 
@@ -867,6 +912,21 @@ def replay(path):
         log(f"TOOL-ERROR: {e}")
         return 2
     v = json.load(open(path))
+    if v.get("cmd") == "trace-linkage":
+        ctx = Ctx("C17", "quick", int(v.get("seed", 1)))
+        try:
+            rej = trace_linkage(ctx, int(v["runs"]), int(v.get("max_n", 12)), only=(v["n"], v["mode"]))
+            if rej:
+                log(f"reproduced: the specification rejects the recorded Linkage run")
+                log(f"VIOLATION property=C17 replay={path}")
+                return 1
+            log("not reproduced on the current tree")
+            return 0
+        except ToolError as e:
+            log(f"TOOL-ERROR: {e}")
+            return 2
+        finally:
+            ctx.cleanup()
     if v.get("cmd") in ("trace-core", "trace-binary"):
         return replay_trace(path, v)
     r = subprocess.run([HV, "replay-one", "--file", path])
